@@ -91,6 +91,16 @@ struct C02Vis {
 			if(std::addressof(cels.front()) != base + m.off[0]) violation("C02:elements:front", "elements().front() is not the first canonical element");
 			if(std::addressof(cels.back()) != base + m.off[std::size_t(N - 1)]) violation("C02:elements:back", "elements().back() is not the last canonical element");
 			if(els.size() != N) violation("C02:elements:size", "elements().size() != num_elements()");
+			// an iterator bound to ANOTHER range of the same static type (other extents) is assigned from an iterator of this range, then moved
+			if(s0 >= 2) { op("elements:cross-range-assign"); auto&& w = v.sliced(0, s0 - 1); auto&& wels = w.elements(); if constexpr(std::is_same_v<decltype(wels.begin()), decltype(els.begin())>) {
+				auto x = wels.begin(); L const pw = g->below(wels.size() + 1); x += pw; L const pv = g->below(N); auto src = els.begin(); src += pv; x = src;
+				if(!(x == src)) violation("C02:elements:cross-range-assign:eq", "an iterator assigned from another range's iterator does not compare equal to it");
+				if(std::addressof(*x) != base + m.off[std::size_t(pv)]) violation("C02:elements:cross-range-assign:deref", "assigned iterator designates another element");
+				L const n2 = g->in(-pv, N - 1 - pv); auto y = x; y += n2; if(std::addressof(*y) != base + m.off[std::size_t(pv + n2)]) violation("C02:elements:cross-range-assign:+=", "after assignment across ranges, it += n designates another element than position p+n");
+				if(pv + 1 < N) { auto z = x; ++z; if(std::addressof(*z) != base + m.off[std::size_t(pv + 1)]) violation("C02:elements:cross-range-assign:++", "after assignment across ranges, ++it designates another element than position p+1"); }
+				if(pv > 0) { auto z = x; --z; if(std::addressof(*z) != base + m.off[std::size_t(pv - 1)]) violation("C02:elements:cross-range-assign:--", "after assignment across ranges, --it designates another element than position p-1"); }
+				if(std::addressof(x[n2]) != base + m.off[std::size_t(pv + n2)]) violation("C02:elements:cross-range-assign:[]", "after assignment across ranges, it[n] designates another element");
+				count("cross_range_assignments"); } }
 			op("elements:const-vs-mutable"); auto i = els.begin(); auto c = cels.begin(); i += k; c += k; decltype(c) c2 = i; if(!(c2 == c)) violation("C02:elements:const-eq-mutable", "const and mutable element iterators at one position compare unequal");
 		}
 		count("views_walked");
